@@ -139,6 +139,19 @@ def string_model(ex, c, args, guard, site):
         ctx.models_used.add('str Index<%s<usize>> (bounds and char-boundary panics)' % kind)
         if not z3.is_true(okc): ctx.panics.append((zand(guard, znot(okc)), site, 'str slice index out of range or not a char boundary'))
         return StrV(st.buf, add_iv(st.start, a), IV(b.t - a.t, 'usize', max(0, b.lo - a.hi), max(0, b.hi - a.lo))), okc
+    # byte-slice indexing by a range: bounds panic only (no char boundaries)
+    m = re.match(r'^<\[u8\] as Index<(?:std::ops::)?(Range|RangeFrom|RangeTo)<usize>>>::index$', cs) or \
+        re.match(r'^core::slice::index::<impl Index<(?:std::ops::)?(Range|RangeFrom|RangeTo)<usize>> for \[u8\]>::index$', cs)
+    if m:
+        v = ex.deref(args[0])
+        if not isinstance(v, (StrV, StrLit)): return None
+        st = as_str(ex, v); r = ex.deref(args[1]); kind = m.group(1)
+        a = r.f[0] if kind != 'RangeTo' else mk_int(0, 'usize')
+        b = r.f[1] if kind == 'Range' else (r.f[0] if kind == 'RangeTo' else st.len)
+        okc = zand(a.t <= b.t, b.t <= st.len.t)
+        ctx.models_used.add('[u8] Index<%s<usize>> (bounds panic)' % kind)
+        if not z3.is_true(okc): ctx.panics.append((zand(guard, znot(okc)), site, 'byte slice index out of range'))
+        return StrV(st.buf, add_iv(st.start, a), IV(b.t - a.t, 'usize', max(0, b.lo - a.hi), max(0, b.hi - a.lo))), okc
     m = re.match(r'^core::str::<impl str>::parse::<(\w+)>$', c)
     if m and m.group(1) in INT_TYPES:
         v = ex.deref(args[0])
@@ -237,7 +250,7 @@ def string_model(ex, c, args, guard, site):
                 return bv_of(zand(st.len.t >= k, *[byte_at(st, mk_int(i, 'usize')).t == pat.b[i] for i in range(k)])), T
             return bv_of(zand(st.len.t >= k, *[byte_at(st, IV(st.len.t - k + i, 'usize', st.len.lo - k + i, st.len.hi - k + i)).t == pat.b[i] for i in range(k)])), T
         return None
-    if cs == 'core::str::<impl str>::is_ascii' or cs == 'core::slice::ascii::<impl [u8]>::is_ascii':
+    if cs in ('core::str::<impl str>::is_ascii', 'core::slice::ascii::<impl [u8]>::is_ascii', 'core::slice::<impl [u8]>::is_ascii'):
         v = ex.deref(args[0])
         if not isinstance(v, (StrV, StrLit)): return None
         st = as_str(ex, v)
